@@ -19,6 +19,48 @@ use out::ToOut;
 use serde_json::{json, Value as J};
 use std::io::{BufRead, Write};
 
+/// A user error type with its own HTTP response (422, "custom: <message>"): the extractors must hand back
+/// exactly this response when deserr rejects the document.
+#[derive(Debug)]
+pub struct CErr(pub JsonError);
+impl std::fmt::Display for CErr {
+    fn fmt(&self, f: &mut std::fmt::Formatter<'_>) -> std::fmt::Result {
+        write!(f, "custom: {}", self.0)
+    }
+}
+impl deserr::DeserializeError for CErr {
+    fn error<V: deserr::IntoValue>(_self_: Option<Self>, error: deserr::ErrorKind<V>, location: deserr::ValuePointerRef) -> std::ops::ControlFlow<Self, Self> {
+        match <JsonError as deserr::DeserializeError>::error::<V>(None, error, location) {
+            std::ops::ControlFlow::Break(e) | std::ops::ControlFlow::Continue(e) => std::ops::ControlFlow::Break(CErr(e)),
+        }
+    }
+}
+impl deserr::MergeWithError<CErr> for CErr {
+    fn merge(_self_: Option<Self>, other: CErr, _loc: deserr::ValuePointerRef) -> std::ops::ControlFlow<Self, Self> {
+        std::ops::ControlFlow::Break(other)
+    }
+}
+impl deserr::MergeWithError<rec::UErr> for CErr {
+    fn merge(_self_: Option<Self>, other: rec::UErr, loc: deserr::ValuePointerRef) -> std::ops::ControlFlow<Self, Self> {
+        match <JsonError as deserr::MergeWithError<rec::UErr>>::merge(None, other, loc) {
+            std::ops::ControlFlow::Break(e) | std::ops::ControlFlow::Continue(e) => std::ops::ControlFlow::Break(CErr(e)),
+        }
+    }
+}
+impl axum::response::IntoResponse for CErr {
+    fn into_response(self) -> axum::response::Response {
+        (http::StatusCode::UNPROCESSABLE_ENTITY, self.to_string()).into_response()
+    }
+}
+impl actix_web::ResponseError for CErr {
+    fn status_code(&self) -> actix_web::http::StatusCode {
+        actix_web::http::StatusCode::UNPROCESSABLE_ENTITY
+    }
+    fn error_response(&self) -> actix_web::HttpResponse<actix_web::body::BoxBody> {
+        actix_web::HttpResponseBuilder::new(self.status_code()).content_type("text/plain").body(self.to_string())
+    }
+}
+
 pub struct Req {
     pub body: Vec<u8>,
     pub content_type: Option<String>,
@@ -73,7 +115,7 @@ fn doc_json(j: &J) -> J {
     json!({"doc": ov::ov_to_wire(&ov::ov_of_json(j))})
 }
 
-pub fn run_http<T: Deserr<JsonError> + ToOut + 'static>(r: &Req) -> J {
+pub fn run_http<T: Deserr<JsonError> + Deserr<CErr> + ToOut + 'static>(r: &Req) -> J {
     use actix_web::FromRequest as _;
     use axum::extract::FromRequest as _;
     use axum::response::IntoResponse as _;
@@ -111,8 +153,18 @@ pub fn run_http<T: Deserr<JsonError> + ToOut + 'static>(r: &Req) -> J {
         Ok(x) => json!({"ok": x.into_inner().to_out()}),
         Err(e) => axum_resp(e.into_response()),
     };
+    // the same two JSON extractors with a user error type that has its own response
+    let (req, mut pl) = actix_parts(r);
+    let ex_actix_c = match block_on(AwebJson::<T, CErr>::from_request(&req, &mut pl)) {
+        Ok(x) => json!({"ok": x.into_inner().to_out()}),
+        Err(e) => actix_err(e),
+    };
+    let ex_axum_c = match block_on(AxumJson::<T, CErr>::from_request(axum_req(r), &())) {
+        Ok(x) => json!({"ok": x.into_inner().to_out()}),
+        Err(e) => axum_resp(e.into_response()),
+    };
     json!({"fw_actix": fw_actix, "ex_actix": ex_actix, "fw_query": fw_query, "ex_query": ex_query,
-           "ex_query_req": ex_query_req, "fw_axum": fw_axum, "ex_axum": ex_axum})
+           "ex_query_req": ex_query_req, "fw_axum": fw_axum, "ex_axum": ex_axum, "ex_actix_c": ex_actix_c, "ex_axum_c": ex_axum_c})
 }
 
 fn main() {
